@@ -929,3 +929,28 @@ PROPS["C09"]["claim"] = PROPS["C09"]["claim"] + " Growth batches (Verus, unbound
 PROPS["C09"]["does_not_cover"] = [x for x in PROPS["C09"]["does_not_cover"] if "reindex` batch builder" not in x and "HashColumn::reindex batch builder" not in x]
 PROPS["C14"]["claim"] = PROPS["C14"]["claim"] + " No index entry is dropped by a growth batch (Verus, unbounded: HashColumn::reindex, see C09)."
 PROPS["C10"]["claim"] = PROPS["C10"]["claim"] + " Stored node counts survive a growth of the ref-count table (Verus, unbounded): the ref-count branch of HashColumn::reindex plans exactly the live (address, count) pairs of the chunks its progress counter moves past and reports the old table droppable only at the end."
+
+# ---------------------------------------------------------------- U60 (Verus: writer side of a multitree commit -- preparation and packing of new nodes)
+UNIT_META["tree_claim"] = {"functions": ["column::HashColumn::{prepare_node,prepare_children,claim_node,claim_children_to_data}", "column::packed_node_size"],
+                           "assumes": ["tier selection `tables.tables.iter().position(|t| ..).unwrap_or_else(..)` (iterator adapter with closures) becomes the contract tier_for: a function of the tables and the packed size (shape rewrite; the size expression is kept verbatim, so preparation and packing are compared on the size each of them computes)",
+                                       "packed_child_count (u8::try_from + map_err closure) is a contract: Ok exactly for counts <= 255, the count unchanged (Kani, U11, on the real function)",
+                                       "u64::to_le_bytes, Address::{new,as_u64} (U1), `Vec<u8> -> RcValue` (Arc::new) are contracts over uninterpreted functions; std HashMap by the contract of std_hashmap.inc",
+                                       "HashColumn is declared with the one field read here (append_only); NodeChange with the two variants produced here",
+                                       "`<[T]>::contains` is declared (membership under derived equality) although the code does not call it, so that an edit consulting the list is decided instead of rejected",
+                                       "node data below 4 GiB and fewer than 2^32 children per node (size arithmetic inside usize); partial correctness (recursion over a finite tree)",
+                                       "the loop of claim_tree_values that turns the per-tier counts into claimed slot lists (iteration over a HashMap by value, ValueTable::claim_entries) is outside the unit: that each tier gets as many slots as preparation counted is the precondition `budget`"]}
+for _p in ("C10", "C08"):
+    PROPS[_p]["verus_units"] = list(PROPS[_p].get("verus_units", [])) + ["tree_claim"]
+PROPS["C10"]["claim"] = PROPS["C10"]["claim"] + " Writer side (Verus, unbounded over tree shape, fan-out and data): HashColumn::claim_node lists every new node exactly once, last among the changes of its subtree, under the address it returns -- the next unused slot claimed for the node's size tier -- and packed as data ++ 8 little-endian address bytes per child in child order ++ child count, which is the format unpack_node_* decodes; the address bytes of a new child are the address its own packed form was listed under, those of an existing child its address; every occurrence of an existing child gets a count increment of its own (a child listed twice is counted twice, matching the release walk, which lowers once per occurrence) unless the column never counts; entries already in the change list are never altered."
+PROPS["C08"]["claim"] = PROPS["C08"]["claim"] + " Multitree preparation (Verus, unbounded): HashColumn::prepare_node / prepare_children accept only trees in which every new node's child count fits the count byte -- i.e. every tree packing would reject is rejected before any slot is claimed -- and count exactly one slot per new node in the size tier packing will use; claim_node / claim_children_to_data, given those counts, return no error and take exactly the counted slots, so no claimed slot is left over."
+PROPS["C10"]["does_not_cover"] = [x for x in PROPS["C10"]["does_not_cover"] if "claim_tree_values" not in x and "claim_node" not in x] + ["the loop of claim_tree_values that claims the counted slots per tier (HashMap iteration by value, ValueTable::claim_entries)", "that the size tier chosen holds the packed node (tier selection is a contract here)"]
+PROPS["C10"]["technique"] = PROPS["C10"]["technique"] + "; Verus contracts on the real node preparation / packing functions (prepare_node, claim_node and their child loops, extracted on every run)"
+
+# ---------------------------------------------------------------- U45 extension: no hole in the record ids of the write-ahead log
+PROPS["C03"]["verus_units"] = list(PROPS["C03"].get("verus_units", [])) + ["commit_apply"]
+_U45B = " No hole in the write-ahead log (Verus, fragment of process_commits): a record id taken from Log::begin_record for a commit is the id of the record Log::end_record appends for it on every successful path -- replay stops at the first id that is not the successor of the previous one and discards everything behind it, so a skipped record would lose every synced commit after it."
+for _p in ("C03", "C13"):
+    PROPS[_p]["claim"] = PROPS[_p]["claim"] + _U45B
+PROPS["C13"]["verus_units"] = list(PROPS["C13"].get("verus_units", [])) + ["commit_apply"]
+UNIT_META["commit_apply"]["assumes"] = UNIT_META["commit_apply"]["assumes"] + ["ghost view of the log (next record id, ids appended): Log::{begin_record,end_record} are contracts taking `&mut self` so that the view can change (the real functions use atomics behind `&self`); planning functions keep the writer's record id; LogChange::is_empty is declared (arbitrary answer) although the code does not call it"]
+
